@@ -315,6 +315,44 @@ func kinds() []*kind {
 		}
 		return c.state[c.cb()]
 	})
+	add("TransformWith(success->failed, failure->recovered)", 1, true, func(c *ctx, k []F) F {
+		return future.TransformWith(k[0], func(t fp.Try[int]) F {
+			c.called("TransformWith.fn")
+			if t.IsSuccess() {
+				return future.Failed[int](errK)
+			}
+			return future.Successful(-1)
+		}, c.exec...)
+	}, func(c *ctx, k []func() tri) tri {
+		t := k[0]()
+		if t.pending {
+			return t
+		}
+		c.rlog["TransformWith.fn"]++
+		if t.ok {
+			return fail(errK)
+		}
+		return succ(-1)
+	})
+	add("Transform(success->failure, failure->success)", 1, false, func(c *ctx, k []F) F {
+		return future.Transform(k[0], func(t fp.Try[int]) fp.Try[int] {
+			c.called("Transform.fn")
+			if t.IsSuccess() {
+				return try.Failure[int](errK)
+			}
+			return try.Success(-1)
+		}, c.exec...)
+	}, func(c *ctx, k []func() tri) tri {
+		t := k[0]()
+		if t.pending {
+			return t
+		}
+		c.rlog["Transform.fn"]++
+		if t.ok {
+			return fail(errK)
+		}
+		return succ(-1)
+	})
 	add("Recover", 1, true, func(c *ctx, k []F) F {
 		return k[0].Recover(func(error) int { c.called("Recover.h"); return 100 }, c.exec...)
 	}, func(c *ctx, k []func() tri) tri {
